@@ -39,8 +39,10 @@ func init() {
 			}
 		}()
 		for task := range retryerCh {
-			retryer := getRetryerOfResource(task.resource)
-			retryer.scheduleNodes(task.nodes)
+			// The rule of the resource may have been removed since the task was queued.
+			if retryer := getRetryerOfResource(task.resource); retryer != nil {
+				retryer.scheduleNodes(task.nodes)
+			}
 		}
 	}()
 }
@@ -65,7 +67,10 @@ func getRetryerOfResource(resource string) *Retryer {
 		}
 		rule := getOutlierRuleOfResource(resource)
 		if rule == nil {
+			// Without a rule there is no check function and no interval: a retryer built
+			// from nothing would call a nil function from a timer goroutine.
 			logging.Error(errors.New("nil outlier rule"), "Nil outlier rule in getRetryerOfResource()")
+			return nil
 		} else {
 			retryer.maxAttempts = rule.MaxRecoveryAttempts
 			retryer.interval = time.Duration(rule.RecoveryIntervalMs * 1e6)
@@ -118,8 +123,9 @@ func (r *Retryer) onConnected(node string, rt uint64) {
 	r.mtx.Lock()
 	delete(r.counts, node)
 	r.mtx.Unlock()
-	recycler := getRecyclerOfResource(r.resource)
-	recycler.recover(node)
+	if recycler := getRecyclerOfResource(r.resource); recycler != nil {
+		recycler.recover(node)
+	}
 	breakers := getNodeBreakersOfResource(r.resource)
 	if breaker, ok := breakers[node]; ok {
 		breaker.OnRequestComplete(rt, nil)
